@@ -1,22 +1,23 @@
 """Single source of truth: which harness crate serves which property.
-`gen_manifest.py` turns this into /verif/MANIFEST.json; `check` uses it to
+One JSON file per harness crate under tools/registry.d/ :
+  { "<ID>": {"crate": "...", "level": "...", "design_ref": "...",
+             "technique": "...", "text": "...", "note": "..."} , ... }
+`gen_manifest.py` turns these into /verif/MANIFEST.json; `check` uses them to
 find the crate to (re)build and run."""
+import glob, json, os
 
-CHECKS = {
-    "C34": dict(
-        crate="vh-gas", level="model_checking", design_ref="4/C34",
-        technique="explicit-state BFS over update sequences on the real AlgorithmUpdaterV1, all small configurations enumerated",
-        text="Breadth-first exploration of every sequence of L2-block / DA-record updates (depth 5 quick, 6 thorough; <=1/2 rejected updates) over 216+ updater configurations, executing the real AlgorithmUpdaterV1 and checking bounds, per-call rate limits and rejected-update atomicity in every reached state.",
-        note="Bounded alphabets of usage/bytes/fee/cost values and configurations; rate bound read per update call on scaled prices; f64-free code so results are exact.",
-    ),
-    "C35": dict(
-        crate="vh-gas", level="exploration", design_ref="4/C35",
-        technique="exhaustive enumeration of a finite input grid (price x percentage x horizon) against an integer reference",
-        text="Exhaustive grid: 22 edge prices x percentages 0..=40(64)+{100,1000,65535} x horizons 0..=40(64)+edges on cumulative_percentage_change, plus AlgorithmV1::worst_case via the real updater; oracle: no panic, monotone in horizon, >= integer-compounded price.",
-        note="Reference is the integer compounding loop; values outside the grid are not covered. Two float-rounding witness classes are recorded as known findings.",
-    ),
-}
+_D = os.path.join(os.path.dirname(os.path.abspath(__file__)), "registry.d")
+CHECKS = {}
+for _f in sorted(glob.glob(os.path.join(_D, "*.json"))):
+    if os.path.basename(_f).startswith("_"):
+        continue
+    for _k, _v in json.load(open(_f)).items():
+        if _k in CHECKS:
+            raise SystemExit(f"registry: {_k} registered twice ({_f})")
+        CHECKS[_k] = _v
 
-# Properties not (yet) claimed, with the reason.
-NOT_APPLICABLE = {
-}
+# Properties not claimed, with the reason (kept current by hand).
+NOT_APPLICABLE = {}
+_na = os.path.join(_D, "_not_applicable.json")
+if os.path.exists(_na):
+    NOT_APPLICABLE = json.load(open(_na))
